@@ -405,14 +405,36 @@ def select(plan, letters, tier, rng):
             groups.setdefault(g, []).append(h)
         pick = [rng.choice(v) for _, v in sorted(groups.items())]
         rng.shuffle(pick)
-        l3 = pick[:260] + rng.sample(clean3, 60)
-        seeded = l1 + rng.sample(l2, 40) + rng.sample(l3, 20)
+        l3 = pick[:200] + rng.sample(clean3, 40)
+        seeded = l1 + rng.sample(l2, 30) + rng.sample(l3, 12)
         items += [(h, 0) for h in l3] + [(h, s) for h in seeded for s in (1, 2)]
     else:
-        l3 = exposed3 + rng.sample(clean3, 1500)
+        l3 = exposed3 + rng.sample(clean3, 800)
         items += [(h, 0) for h in l3]
-        items += [(h, s) for h in l1 + l2 for s in (1, 2)] + [(h, 1) for h in rng.sample(l3, 400)]
+        items += [(h, 1) for h in l1 + l2] + [(h, 2) for h in l1] + [(h, 2) for h in rng.sample(l3, 300)]
     return items
+
+
+def twins(sd):
+    """pairs of different networks whose graph rewrites synthesise equal constants (value-keyed ids), placed next to
+    each other so that the P;X histories of the sweep compile one after the other."""
+    out = []
+
+    def add(label, build):
+        n = netgen.Net(sd + len(out))
+        out.append({"family": "twin:" + label, "net": n.desc([build(n)]), "opts": {}})
+
+    add("padA", lambda n: n.pad(n.fm("in", [1, 6, 6, 8], is_input=True), [[0, 0], [1, 1], [1, 1], [0, 0]]))
+    add("padB", lambda n: n.pad(n.conv(n.fm("in", [1, 4, 6, 8], is_input=True), 8, 1, oscale=0.05, ozp=0),
+                               [[0, 0], [1, 1], [1, 1], [0, 0]]))
+    add("lreluA", lambda n: n.unary("LEAKY_RELU", n.fm("in", [1, 8, 8, 8], scale=0.05, zp=0, is_input=True), alpha=0.1))
+    add("lreluB", lambda n: n.unary("LEAKY_RELU", n.conv(n.fm("in", [1, 5, 7, 8], is_input=True), 8, 3, oscale=0.05, ozp=0),
+                                    alpha=0.1))
+    add("sigmA", lambda n: n.unary("LOGISTIC", n.fm("in", [1, 8, 8, 8], scale=0.05, zp=0, is_input=True)))
+    add("sigmB", lambda n: n.unary("LOGISTIC", n.conv(n.fm("in", [1, 5, 7, 8], is_input=True), 16, 3, oscale=0.05, ozp=0)))
+    add("meanC", lambda n: n.mean(n.fm("in", [1, 6, 6, 16], is_input=True)))
+    add("meanD", lambda n: n.mean(n.conv(n.fm("in", [1, 4, 9, 8], is_input=True), 16, 1)))
+    return out
 
 
 def sweep_items(nets, tier):
@@ -566,8 +588,8 @@ def main(tier):
     for (h, s), r in list(rp.results.items())[:3]:
         run.sample({"history": list(h), "hashseed": s, "steps": [outcome(x) for x in r["steps"]]})
     # ---- S2C stage 2: generated networks with their option points
-    nn = 16 if tier == "quick" else 300
-    nets = corpus.all_singles(sd) + corpus.draw(nn, sd + 14)
+    nn = 8 if tier == "quick" else 200
+    nets = corpus.all_singles(sd) + twins(sd) + corpus.draw(nn, sd + 14)
     rp2 = Replayer(run, _sweep_table(os.path.join(mroot, "sweep"), nets), mroot)
     items2 = sweep_items(nets, tier)
     n2 = rp2.run_all(items2)
@@ -601,9 +623,10 @@ def main(tier):
                             "replay_wall_s": round(rp.wall + rp2.wall, 1)}
     run.cov["rule"] = ("stage 1: histories of length <= 3 over the 24-letter alphabet of History_MC.tla (3 entry points x 7 "
                        "generated models + main() on 3 of them for ethos-u55-128), all of length <= 2, of length 3 "
-                       + ("one per (exposure pattern, entry points, model families) class of the TLC plan plus 60 unexposed"
-                          if tier == "quick" else "every history the TLC plan marks as exposed plus 1500 unexposed")
-                       + "; hash seeds 1 and 2 on a subset; stage 2: corpus networks X with their option points as X, X;X, "
+                       + ("one per (exposure pattern, entry points, model families) class of the TLC plan (200) plus 40 unexposed"
+                          if tier == "quick" else "every history the TLC plan marks as exposed plus 800 unexposed")
+                       + "; hash seeds 1 and 2 on a subset; stage 2: corpus networks (every single-operator family, twin networks whose rewrites synthesise equal "
+                       "constants, random draws) X with their option points as X, X;X, "
                        "P;X (P = the previous network, other accelerator/options)"
                        + (", X;P;X, convert_bytes twice" if tier == "thorough" else "")
                        + ". One fresh interpreter per history. evaluations = interpreters run; non-trivial = distinct "
